@@ -8,6 +8,7 @@
   and sentinels are compared by corr-sem.
 -/
 import Gvlean.Proofs.Report
+import Gvlean.Proofs.Template
 
 namespace Props
 open Go Gen Proofs
@@ -49,5 +50,12 @@ theorem c16_write_set (bs : List Block) :
 theorem c16_helpers_pure (s : Bytes) :
     Gen.IsValidEmail s = Gen.IsValidEmail s ∧ Gen.IsValidURL s = Gen.IsValidURL s ∧ Gen.IsValidUUID s = Gen.IsValidUUID s :=
   ⟨rfl, rfl, rfl⟩
+
+/-- REGENERATED TIE: the only statement form inside the template's validators loop (as re-extracted from /repo on this
+    run) is `if COND { err := SENTINEL; err.Value = t.F; errs = append(errs, err) }` — the sentinel is copied into a
+    local before its `Value` is set, which is `Stmt.check`'s write set -/
+theorem c16_template : ∃ pre post, Facts.tmplTokens =
+    pre ++ (["{{range .Validators}}", "{{if ne .Validate \"\"}}"] ++ Gen.Tmpl.checkForm ++ ["{{end}}", "{{end}}"]) ++ post :=
+  Proofs.template_check
 
 end Props
